@@ -11,20 +11,20 @@ open GoZero.C03 Spec
 /-- operations whose takes carry the window (seconds) their `calcExpireSeconds()` computed -/
 inductive POpW where
   | ft (ms : Nat)
-  | take (key : String) (w : Nat)
+  | take (key : String) (q w : Nat)     -- limit and window of THIS take (its limiter's quota, its calcExpireSeconds())
   | down
   | up
   deriving Repr, DecidableEq
 
-def PSys.stepW (quota : Nat) (s : PSys) : POpW → PSys × Option (Code × PErr)
+def PSys.stepW (s : PSys) : POpW → PSys × Option (Code × PErr)
   | .ft ms => ({ s with store := s.store.advance ms }, none)
-  | .take k w => let r := s.take quota w k; (r.1, some r.2)
+  | .take k quota w => let r := s.take quota w k; (r.1, some r.2)
   | .down => ({ s with up := false }, none)
   | .up => ({ s with up := true }, none)
 
-def PSys.runW (quota : Nat) : PSys → List POpW → List (Option (Code × PErr))
+def PSys.runW : PSys → List POpW → List (Option (Code × PErr))
   | _, [] => []
-  | s, op :: ops => (s.stepW quota op).2 :: PSys.runW quota (s.stepW quota op).1 ops
+  | s, op :: ops => (s.stepW op).2 :: PSys.runW (s.stepW op).1 ops
 
 /-- a life: key, the instant (store clock, ms) at which it ends, takes so far -/
 structure LifeW where
@@ -57,17 +57,17 @@ structure SpecSysW where
 
 def SpecSysW.init : SpecSysW := ⟨[], 0, true⟩
 
-def SpecSysW.step (quota : Nat) (t : SpecSysW) : POpW → SpecSysW × Option (Code × PErr)
+def SpecSysW.step (t : SpecSysW) : POpW → SpecSysW × Option (Code × PErr)
   | .ft ms => ({ t with clock := t.clock + ms }, none)
-  | .take k w =>
+  | .take k quota w =>
     if t.up then ({ t with sp := (ptakeW quota w t.sp t.clock k).1 }, some ((ptakeW quota w t.sp t.clock k).2, .nil))
     else (t, some (.unknown, .store))
   | .down => ({ t with up := false }, none)
   | .up => ({ t with up := true }, none)
 
-def SpecSysW.run (quota : Nat) : SpecSysW → List POpW → List (Option (Code × PErr))
+def SpecSysW.run : SpecSysW → List POpW → List (Option (Code × PErr))
   | _, [] => []
-  | t, op :: ops => (t.step quota op).2 :: SpecSysW.run quota (t.step quota op).1 ops
+  | t, op :: ops => (t.step op).2 :: SpecSysW.run (t.step op).1 ops
 
 theorem lifeOfW_key (k : String) : ∀ (sp : List LifeW) (l : LifeW), lifeOfW k sp = some l → l.key = k := by
   intro sp; induction sp with
@@ -172,17 +172,17 @@ theorem prelW_take (quota period : Nat) (hp : 1 ≤ period) (s : PSys) (t : Spec
           exact h3 k'
 
 /-- every take of the list carries a window of at least one second -/
-def WinOk (ops : List POpW) : Prop := ∀ k w, POpW.take k w ∈ ops → 1 ≤ w
+def WinOk (ops : List POpW) : Prop := ∀ k q w, POpW.take k q w ∈ ops → 1 ≤ w
 
 /-- the model's replies are the specification's replies, for every operation sequence with per-take windows -/
-theorem period_refines_spec_windows_from (quota : Nat) : ∀ (ops : List POpW) (s : PSys) (t : SpecSysW),
-    WinOk ops → PRelW s t → PSys.runW quota s ops = SpecSysW.run quota t ops := by
+theorem period_refines_spec_windows_from : ∀ (ops : List POpW) (s : PSys) (t : SpecSysW),
+    WinOk ops → PRelW s t → PSys.runW s ops = SpecSysW.run t ops := by
   intro ops
   induction ops with
   | nil => intro s t _ _; rfl
   | cons op ops ih =>
     intro s t hw h
-    have hw' : WinOk ops := fun k w hm => hw k w (List.mem_cons_of_mem _ hm)
+    have hw' : WinOk ops := fun k q w hm => hw k q w (List.mem_cons_of_mem _ hm)
     cases op with
     | ft ms =>
       simp only [PSys.runW, SpecSysW.run, PSys.stepW, SpecSysW.step]
@@ -200,8 +200,8 @@ theorem period_refines_spec_windows_from (quota : Nat) : ∀ (ops : List POpW) (
       congr 1
       apply ih _ _ hw'
       exact ⟨rfl, h.2.1, h.2.2⟩
-    | take k w =>
-      have hp : 1 ≤ w := hw k w (List.mem_cons_self)
+    | take k quota w =>
+      have hp : 1 ≤ w := hw k quota w (List.mem_cons_self)
       simp only [PSys.runW, SpecSysW.run, PSys.stepW, SpecSysW.step]
       by_cases hu : s.up = true
       · have hu' : t.up = true := by rw [← h.1]; exact hu
